@@ -65,8 +65,7 @@ Proof.
 Qed.
 
 (* ---------- number literals ---------- *)
-Definition numchar (ch : ascii) : Prop :=
-  is_digit ch = true \/ In ch ["-"; "+"; "."; "e"; "E"]%char.
+From Proofs Require Import NumFacts.
 
 Lemma numchar_clean ch : numchar ch -> clean ch.
 Proof.
@@ -75,122 +74,11 @@ Proof.
   - simpl in H. repeat (destruct H as [<- | H]; [split; discriminate|]). contradiction.
 Qed.
 
-Lemma m_minus {A} (c0 : ascii) (l0 : list ascii) (x : list ascii -> A) (y : A) :
-  Ascii.eqb c0 "-" = false -> (match c0 :: l0 with "-"%char :: r0 => x r0 | _ => y end) = y.
-Proof. intros H. destruct c0 as [[] [] [] [] [] [] [] []]; try reflexivity. discriminate H. Qed.
-
-Lemma m_dot {A} (c0 : ascii) (l0 : list ascii) (x : list ascii -> A) (y : A) :
-  Ascii.eqb c0 "." = false -> (match c0 :: l0 with "."%char :: r0 => x r0 | _ => y end) = y.
-Proof. intros H. destruct c0 as [[] [] [] [] [] [] [] []]; try reflexivity. discriminate H. Qed.
-
-Lemma m_pm {A} (c0 : ascii) (l0 : list ascii) (a b : list ascii -> A) (y : A) :
-  Ascii.eqb c0 "+" = false -> Ascii.eqb c0 "-" = false ->
-  (match c0 :: l0 with "+"%char :: r0 => a r0 | "-"%char :: r0 => b r0 | _ => y end) = y.
-Proof. intros H1 H2. destruct c0 as [[] [] [] [] [] [] [] []]; try reflexivity; discriminate. Qed.
-
-Lemma take_digits_spec l : l = fst (take_digits l) ++ snd (take_digits l) /\ Forall numchar (fst (take_digits l)).
-Proof.
-  induction l as [|ch r IH]; simpl; [split; [reflexivity | constructor]|].
-  destruct (is_digit ch) eqn:E.
-  - destruct (take_digits r) as [d rest]. simpl in *. destruct IH as [IH1 IH2]. split; [now rewrite <- IH1|].
-    constructor; [now left | exact IH2].
-  - simpl. split; [reflexivity | constructor].
-Qed.
-
-Lemma parse_num_chars l lit r : parse_num l = Some (lit, r) -> Forall numchar lit.
-Proof.
-  unfold parse_num.
-  assert (Hs : forall sign l1, (sign, l1) = match l with "-"%char :: r0 => (["-"%char], r0) | _ => ([], l) end -> Forall numchar sign).
-  { intros sign l1 H. destruct l as [|c0 l0]; [injection H as -> _; constructor|].
-    destruct (Ascii.eqb c0 "-") eqn:E.
-    - apply Ascii.eqb_eq in E. subst. injection H as -> _. constructor; [right; simpl; auto | constructor].
-    - rewrite (m_minus c0 l0 (fun r0 => (["-"%char], r0)) ([], c0 :: l0) E) in H. injection H as -> _. constructor. }
-  destruct (match l with "-"%char :: r0 => (["-"%char], r0) | _ => ([], l) end) as [sign l1] eqn:Esign.
-  specialize (Hs sign l1 eq_refl).
-  destruct l1 as [|d r0]; [discriminate|].
-  destruct (is_digit d) eqn:Ed; [|discriminate]. cbn [negb].
-  set (ip := if Ascii.eqb d "0" then ([d], r0) else take_digits (d :: r0)).
-  assert (Hip : Forall numchar (fst ip)).
-  { unfold ip. destruct (Ascii.eqb d "0"); [constructor; [now left | constructor] | apply take_digits_spec]. }
-  destruct ip as [int_part l2]. cbn [fst] in Hip.
-  assert (Hfrac : forall fp l3, match l2 with
-      | "."%char :: r2 => let (ds, l3) := take_digits r2 in match ds with [] => None | _ => Some ("."%char :: ds, l3) end
-      | _ => Some ([], l2) end = Some (fp, l3) -> Forall numchar fp).
-  { intros fp l3 H. destruct l2 as [|c2 r2]; [injection H as <- _; constructor|].
-    destruct (Ascii.eqb c2 ".") eqn:E.
-    - apply Ascii.eqb_eq in E. subst. pose proof (take_digits_spec r2) as [_ Hd]. destruct (take_digits r2) as [ds l3'].
-      destruct ds; [discriminate|]. injection H as <- _. constructor; [right; simpl; auto | exact Hd].
-    - rewrite (m_dot c2 r2 (fun r2 => let (ds, l3) := take_digits r2 in match ds with [] => None | _ => Some ("."%char :: ds, l3) end) (Some ([], c2 :: r2)) E) in H.
-      injection H as <- _. constructor. }
-  destruct (match l2 with
-      | "."%char :: r2 => let (ds, l3) := take_digits r2 in match ds with [] => None | _ => Some ("."%char :: ds, l3) end
-      | _ => Some ([], l2) end) as [[fp l3]|] eqn:Ef; [|discriminate].
-  specialize (Hfrac fp l3 eq_refl).
-  destruct l3 as [|e r3].
-  - intros H. injection H as <- _. rewrite app_nil_r. repeat (apply Forall_app; split); auto.
-  - destruct (Ascii.eqb e "e" || Ascii.eqb e "E") eqn:Ee.
-    + assert (He : numchar e).
-      { apply Bool.orb_prop in Ee. destruct Ee as [Ee|Ee]; apply Ascii.eqb_eq in Ee; subst; right; simpl; auto 10. }
-      destruct (match r3 with "+"%char :: r' => (["+"%char], r') | "-"%char :: r' => (["-"%char], r') | _ => ([], r3) end) as [sg r4] eqn:Esg.
-      assert (Hsg : Forall numchar sg).
-      { destruct r3 as [|c3 r3']; [injection Esg as <- _; constructor|].
-        destruct (Ascii.eqb c3 "+") eqn:E1; [apply Ascii.eqb_eq in E1; subst; injection Esg as <- _; constructor; [right; simpl; auto | constructor]|].
-        destruct (Ascii.eqb c3 "-") eqn:E2; [apply Ascii.eqb_eq in E2; subst; injection Esg as <- _; constructor; [right; simpl; auto | constructor]|].
-        rewrite (m_pm c3 r3' (fun r' => (["+"%char], r')) (fun r' => (["-"%char], r')) ([], c3 :: r3') E1 E2) in Esg. injection Esg as <- _. constructor. }
-      pose proof (take_digits_spec r4) as [_ Hd]. destruct (take_digits r4) as [ds l4].
-      destruct ds as [|d0 ds']; [discriminate|]. intros H. injection H as <- _.
-      repeat (apply Forall_app; split); auto. constructor; [exact He|]. apply Forall_app; split; auto.
-    + intros H. injection H as <- _. rewrite app_nil_r. repeat (apply Forall_app; split); auto.
-Qed.
-
-Lemma take_digits_eq l : l = fst (take_digits l) ++ snd (take_digits l).
-Proof. apply take_digits_spec. Qed.
-
 (* a valid number literal is the literal parse_num reads back: it consists of number characters only *)
 Lemma valid_number_chars lit : valid_number lit = true -> Forall clean (list_ascii_of_string lit).
 Proof.
-  unfold valid_number. destruct (parse_num (list_ascii_of_string lit)) as [[l r]|] eqn:E; [|discriminate].
-  destruct r; [|discriminate]. intros _.
-  (* the literal returned by parse_num is the consumed prefix; with an empty rest it is the whole input *)
-  assert (Hc : Forall numchar l) by (eapply parse_num_chars; eauto).
-  assert (Heq : list_ascii_of_string lit = l).
-  { revert E. unfold parse_num.
-    destruct (match list_ascii_of_string lit with "-"%char :: r0 => (["-"%char], r0) | _ => ([], list_ascii_of_string lit) end) as [sign l1] eqn:Esign.
-    assert (Hl : list_ascii_of_string lit = sign ++ l1).
-    { destruct (list_ascii_of_string lit) as [|c0 l0]; [injection Esign as <- <-; reflexivity|].
-      destruct (Ascii.eqb c0 "-") eqn:E0.
-      - apply Ascii.eqb_eq in E0. subst. injection Esign as <- <-. reflexivity.
-      - rewrite (m_minus c0 l0 (fun r0 => (["-"%char], r0)) ([], c0 :: l0) E0) in Esign. injection Esign as <- <-. reflexivity. }
-    destruct l1 as [|d r0]; [discriminate|].
-    destruct (is_digit d); [|discriminate]. cbn [negb].
-    set (ip := if Ascii.eqb d "0" then ([d], r0) else take_digits (d :: r0)).
-    assert (Hip : d :: r0 = fst ip ++ snd ip).
-    { unfold ip. destruct (Ascii.eqb d "0"); [reflexivity | apply take_digits_eq]. }
-    destruct ip as [int_part l2]. cbn [fst snd] in Hip.
-    destruct (match l2 with
-      | "."%char :: r2 => let (ds, l3) := take_digits r2 in match ds with [] => None | _ => Some ("."%char :: ds, l3) end
-      | _ => Some ([], l2) end) as [[fp l3]|] eqn:Ef; [|discriminate].
-    assert (Hf : l2 = fp ++ l3).
-    { destruct l2 as [|c2 r2]; [injection Ef as <- <-; reflexivity|].
-      destruct (Ascii.eqb c2 ".") eqn:E2.
-      - apply Ascii.eqb_eq in E2. subst. pose proof (take_digits_eq r2) as Hd. destruct (take_digits r2) as [ds l3'].
-        destruct ds; [discriminate|]. injection Ef as <- <-. simpl in *. now rewrite Hd.
-      - rewrite (m_dot c2 r2 (fun r2 => let (ds, l3) := take_digits r2 in match ds with [] => None | _ => Some ("."%char :: ds, l3) end) (Some ([], c2 :: r2)) E2) in Ef.
-        injection Ef as <- <-. reflexivity. }
-    destruct l3 as [|e r3].
-    - intros H. injection H as <-. rewrite Hl, Hip, Hf, ?app_nil_r. rewrite <- ?app_assoc. reflexivity.
-    - destruct (Ascii.eqb e "e" || Ascii.eqb e "E").
-      + destruct (match r3 with "+"%char :: r' => (["+"%char], r') | "-"%char :: r' => (["-"%char], r') | _ => ([], r3) end) as [sg r4] eqn:Esg.
-        assert (Hsg : r3 = sg ++ r4).
-        { destruct r3 as [|c3 r3']; [injection Esg as <- <-; reflexivity|].
-          destruct (Ascii.eqb c3 "+") eqn:E1; [apply Ascii.eqb_eq in E1; subst; injection Esg as <- <-; reflexivity|].
-          destruct (Ascii.eqb c3 "-") eqn:E2; [apply Ascii.eqb_eq in E2; subst; injection Esg as <- <-; reflexivity|].
-          rewrite (m_pm c3 r3' (fun r' => (["+"%char], r')) (fun r' => (["-"%char], r')) ([], c3 :: r3') E1 E2) in Esg. injection Esg as <- <-. reflexivity. }
-        pose proof (take_digits_eq r4) as Hd. destruct (take_digits r4) as [ds l4].
-        destruct ds as [|d0 ds']; [discriminate|]. intros H. injection H as <- ->. simpl in Hd.
-        rewrite Hl, Hip, Hf, Hsg, Hd. rewrite ?app_nil_r. rewrite <- ?app_assoc. reflexivity.
-      + intros H. injection H as <- Hr. discriminate Hr. }
-  rewrite Heq. eapply Forall_impl; [|exact Hc]. apply numchar_clean.
+  intros Hv. apply valid_number_text in Hv. apply parse_num_chars in Hv.
+  eapply Forall_impl; [|exact Hv]. apply numchar_clean.
 Qed.
 
 (* ---------- the whole printer ---------- *)
